@@ -442,8 +442,8 @@ def unsafe_sites(chk, F):
                          "with a destructor" % (b["path"], nt))
             ok_all = ok_all and ok
         if not matched:
-            chk.ob("unsafe|unknown|%s" % b["path"], False, "every unsafe block is one of the enumerated, verified idioms", body_loc(F, b),
-                   found="%d unsafe block(s) outside the known templates" % len(blocks))
+            # no positive evidence of a defect: an unsafe block outside the verified idioms is undecided, not violated
+            chk.undecide("unsafe|unknown|%s" % b["path"], "%d unsafe block(s) outside the verified templates" % len(blocks), body_loc(F, b))
             ok_all = False
     chk.count("unsafe loop nests matched", n_nest)
     chk.count("unsafe forwarding methods", n_forward)
